@@ -400,10 +400,17 @@ func c25StdPeerKeyUpdates() *explore.Scenario {
 		Name: "tls13-key-updates-vs-standard-library-peer",
 		Run: func(x *explore.X) (r explore.Result) {
 			suite := suites[x.Choose("suite", len(suites))]
-			n := x.Choose("updates", 4)
+			n := x.Choose("updates", 6)
 			var ops []bool
-			for i := 0; i < n; i++ {
-				ops = append(ops, x.Choose("requested", 2) == 1)
+			switch n {
+			case 4, 5: // a long-lived connection: 40 key updates (all / every other one requesting one back), data between each
+				for i := 0; i < 40; i++ {
+					ops = append(ops, n == 4 || i%2 == 0)
+				}
+			default:
+				for i := 0; i < n; i++ {
+					ops = append(ops, x.Choose("requested", 2) == 1)
+				}
 			}
 			size := []int{1, 1000, 17000}[x.Choose("size", 3)]
 			what := fmt.Sprintf("suite=%04x updates(requesting)=%v chunk=%d", suite, ops, size)
